@@ -21,6 +21,7 @@ def handle (st : DState) (j : Json) : DState × Json :=
   | .str "noise" => (st, noiseOp j)
   | .str "jw" => (st, jwOp j)
   | .str "refstate" => (st, refStateOp j)
+  | .str "symlists" => (st, symListsOp j)
   | .str "grouping" => (st, groupingOp j)
   | .str "exp_pauliword" => (st, expPauliwordOp j)
   | .str "exp_qubitop" => (st, expQubitOp j)
